@@ -361,3 +361,215 @@ def static_equiv(c, c2, raw=None, sym=None, path=""):
 
 
 MONITORS = {"C09": C09, "C05": C05}
+
+
+# ------------------------------------------------------------- C05 behavioural (R-EXEC)
+PRELUDE = """
+import contextlib as _cl
+a = 3
+b = [1, 2, 0]
+c = {'k': 1}
+x = 5
+v = 0
+w = None
+def f(*args, **kw):
+    return (args, sorted(kw.items()))
+@_cl.contextmanager
+def cm():
+    yield 7
+"""
+
+EXEC_STMTS = [
+    "v = a + 1",
+    "v += x",
+    "p, (q, *r) = (1, (2, 3, 4))",
+    "if a > x:\n    v = 1\nelse:\n    v = 2",
+    "for i in b:\n    v += i\n    if i == 7: break\nelse:\n    v -= 1",
+    "while v < 3:\n    v += 1\n    if v == 2: continue\n    if v > 5: break",
+    "try:\n    raise ValueError('e')\nexcept ValueError as e:\n    v = str(e)\nfinally:\n    w = 1",
+    "try:\n    v = 1\nfinally:\n    w = (lambda: 2)()",
+    "with cm() as w:\n    v = w",
+    "def fn(p, q=2, *r, k=1, **kw):\n    'doc'\n    return (p, q, r, k, sorted(kw))\nv = fn(1, 2, 3, k=4, z=5)",
+    "v = [i * 2 for i in b if i]",
+    "v = {i: j for i in b for j in b}",
+    "g = (i for i in b)\nv = list(g)",
+    "v = (lambda y: y + a)(1)",
+    "def outer(p):\n    q = 'cell'\n    def inner():\n        return (p, q, a)\n    return inner\nv = outer(2)()",
+    "class K:\n    'cdoc'\n    z = 1\n    def m(self):\n        return (self.z, __class__.__name__)\nv = K().m()",
+    "def gen(n):\n    for i in range(n):\n        yield i\n    return 'done'\nv = list(gen(3))",
+    "v = f'{a!r:>{x}}'",
+    "v = a if x else b",
+    "v = a and x or b",
+    "v = 1 < a < 5 < x",
+    "assert a, 'msg'",
+    "v = -0.0; w = (1e999 - 1e999)",
+    "print(a, v)",
+    "v = b[10]",
+    "raise KeyError('k')",
+    "import math\nv = math.floor(2.5)",
+    "v = 1\n\n\n\nw = 2",
+    "v = f(a,\n\n      x)",
+    "async def co(t):\n    return t + 1\n_c = co(1)\ntry:\n    _c.send(None)\nexcept StopIteration as e:\n    v = e.value",
+    "v = (1, 2.0, 'three', b'4', None, ..., 5j) + (a,)",
+    "v = a in {1, 2, 3}",
+    "def rec(n):\n    return 1 if n < 2 else n * rec(n - 1)\nv = rec(4)",
+    "v = sorted(c.items()); del c['k']",
+]
+
+
+def exec_cases(tier="quick"):
+    n = len(EXEC_STMTS)
+    if tier == "thorough":
+        for i in range(n):
+            for j in range(n):
+                for k in range(n):
+                    yield {"k": "exec", "s": "X3", "i": i, "j": j, "l": k, "ctx": "function" if (i + j + k) % 2 else "module", "opt": 0}
+    for i in range(n):
+        for j in range(n):
+            for ctx in ("module", "function"):
+                yield {"k": "exec", "s": "X", "i": i, "j": j, "ctx": ctx, "opt": 0}
+    for i in range(n):
+        for opt in (1, 2):
+            yield {"k": "exec", "s": "X", "i": i, "j": None, "ctx": "module", "opt": opt}
+
+
+def n_exec_cases(tier="quick"):
+    n = len(EXEC_STMTS)
+    return n * n * 2 + n * 2 + (n ** 3 if tier == "thorough" else 0)
+
+
+def exec_source(case):
+    parts = [EXEC_STMTS[case["i"]]]
+    if case["j"] is not None:
+        parts.append(EXEC_STMTS[case["j"]])
+    if case.get("l") is not None:
+        parts.append(EXEC_STMTS[case["l"]])
+    body = "\n".join(parts) + "\n"
+    if case["ctx"] == "function":
+        ind = "".join("    " + l + "\n" if l else "\n" for l in body.split("\n")[:-1])
+        body = "def main(a, b, c, x, v=0, w=None):\n" + ind + "    return sorted((k, repr(val)) for k, val in locals().items() if not callable(val) and ' at 0x' not in repr(val))\nresult = main(a, b, c, x)\n"
+    return body
+
+
+def observe(code):
+    """R-EXEC: run a module code object in fresh prelude-initialized globals and
+    return everything a user could observe, address-free."""
+    import io
+    import contextlib
+    import traceback as tbmod
+
+    g = {"__name__": "__verif__"}
+    exec(compile(PRELUDE, "<prelude>", "exec"), g)
+    events = []
+    fname = code.co_filename
+
+    def tracer(frame, event, arg):
+        if frame.f_code.co_filename != fname:
+            return None
+        events.append((frame.f_code.co_name, event, frame.f_lineno))
+        return tracer
+
+    out = io.StringIO()
+    exc = None
+    old = sys.gettrace()
+    try:
+        with contextlib.redirect_stdout(out):
+            sys.settrace(tracer)
+            try:
+                exec(code, g)
+            except BaseException as e:  # noqa
+                tb = e.__traceback__
+                lines = []
+                while tb is not None:
+                    if tb.tb_frame.f_code.co_filename == fname:
+                        lines.append((tb.tb_frame.f_code.co_name, tb.tb_lineno))
+                    tb = tb.tb_next
+                exc = (type(e).__name__, str(e), tuple(lines))
+            finally:
+                sys.settrace(old)
+    finally:
+        sys.settrace(old)
+    res = []
+    for k in sorted(g):
+        if k.startswith("__") or k in ("_cl",):
+            continue
+        val = g[k]
+        if callable(val) or type(val).__name__ in ("module", "generator", "coroutine"):
+            res.append((k, type(val).__name__, getattr(val, "__doc__", None) if type(val).__name__ == "function" else None))
+        else:
+            res.append((k, repr(val)))
+    return (out.getvalue(), exc, tuple(res), tuple(events))
+
+
+def check_exec(mon, case, stats):
+    src = exec_source(case)
+    try:
+        code = compile(src, "<verif>", "exec", dont_inherit=True, optimize=case["opt"])
+    except SyntaxError:
+        stats.skipped["not-compilable"] += 1
+        return
+    stats.sample("X", {"program": src}, per=2)
+    stats.evaluations += 1
+    try:
+        with horizon(H):
+            c2 = CodeData.from_code(code).normalize().to_code()
+    except HorizonHit:
+        stats.violation(case, "normalize-no-termination", "")
+        return
+    except Exception as e:
+        stats.violation(case, "normalize-to_code-raises:" + type(e).__name__, exc_summary(e))
+        return
+    with horizon(30.0):
+        o1 = observe(code)
+        o1b = observe(code)
+        o2 = observe(c2)
+    if o1 != o1b:
+        raise ref.HarnessError("program is not deterministic: %r" % src)
+    stats.nontriv(("exec", case["i"], case["j"], case.get("l"), case["ctx"], case["opt"]))
+    if o1[1] is not None:
+        stats.reach["exec:raises"] += 1
+    if o1[0]:
+        stats.reach["exec:prints"] += 1
+    stats.reach["exec:events"] += len(o1[3])
+    if o1 != o2:
+        names = ("stdout", "exception/traceback lines", "resulting globals", "traced (name, event, line) stream")
+        which = [n for n, p, q in zip(names, o1, o2) if p != q]
+        detail = ""
+        for n, p, q in zip(names, o1, o2):
+            if p != q:
+                detail = "%s: before %s, after %s" % (n, short(p, 160), short(q, 160))
+                if n.startswith("traced"):
+                    for k, (e1, e2) in enumerate(zip(p, q)):
+                        if e1 != e2:
+                            detail = "traced event %d: before %s, after %s" % (k, e1, e2)
+                            break
+                break
+        stats.violation(case, "behaviour:" + which[0].split(" ")[0].split("/")[0], "executing the normalized code differs in %s; %s" % (which, detail))
+        return
+    stats.outcomes["behaviour-identical"] += 1
+
+
+_C05_check = C05.check
+_C05_init = C05.__init__
+
+
+def _c05_init(self, tier):
+    _C05_init(self, tier)
+    self._strata = [("X", lambda: exec_cases(tier), n_exec_cases(tier))] + list(self._strata)
+
+
+def _c05_check(self, case, stats):
+    if case["k"] == "exec":
+        return check_exec(self, case, stats)
+    return _C05_check(self, case, stats)
+
+
+def _c05_replay(self, case, stats):
+    if case["k"] == "exec":
+        return check_exec(self, case, stats)
+    return CodeMonitor.replay(self, case, stats)
+
+
+C05.__init__ = _c05_init
+C05.check = _c05_check
+C05.replay = _c05_replay
